@@ -1,6 +1,11 @@
 package ircserver
 
-import "gopkg.in/sorcix/irc.v2"
+import (
+	"sort"
+
+	"github.com/robustirc/robustirc/internal/robust"
+	"gopkg.in/sorcix/irc.v2"
+)
 
 func init() {
 	Commands["server_QUIT"] = &ircCommand{
@@ -13,11 +18,20 @@ func (i *IRCServer) cmdServerQuit(s *Session, reply *Replyctx, msg *irc.Message)
 	if msg.Prefix == nil {
 		i.deleteSessionLocked(s, reply.msgid)
 		// For services, we also need to delete all sessions that share the
-		// same .Id, but have a different .Reply.
-		for id, session := range i.sessions {
+		// same .Id, but have a different .Reply. Do so in a well-defined
+		// order: the iteration order of a map differs between nodes (and
+		// between runs), but all nodes must produce identical output for the
+		// same input.
+		var pseudoClients []uint64
+		for id := range i.sessions {
 			if id.Id != s.Id.Id || id.Reply == 0 {
 				continue
 			}
+			pseudoClients = append(pseudoClients, id.Reply)
+		}
+		sort.Slice(pseudoClients, func(a, b int) bool { return pseudoClients[a] < pseudoClients[b] })
+		for _, replyid := range pseudoClients {
+			session := i.sessions[robust.Id{Id: s.Id.Id, Reply: replyid}]
 			i.sendCommonChannels(session, reply, &irc.Message{
 				Prefix:  &session.ircPrefix,
 				Command: irc.QUIT,
